@@ -132,11 +132,18 @@ class RecordingS3Client:
         return {"ResponseMetadata": {"HTTPStatusCode": 200}}
 
     def get_object(self, **kwargs):
-        self.log.append({"op": "get_object", "Bucket": kwargs.get("Bucket"), "Key": kwargs.get("Key")})
+        import datetime
+        import io
+
+        key = kwargs.get("Key")
+        if key in S3_STORE:  # scripted remote content (e.g. the presidential files of correct_from_presidential)
+            return {"Body": io.BytesIO(S3_STORE[key].encode("utf-8")), "LastModified": datetime.datetime(2099, 11, 3, 21, 0, 0)}
+        self.log.append({"op": "get_object", "Bucket": kwargs.get("Bucket"), "Key": key})
         raise RuntimeError("harness: no remote reads expected")
 
 
 S3_LOG = []
+S3_STORE = {}
 
 
 def install_fake_boto3():
